@@ -761,6 +761,8 @@ void ExecOpInEnv(const EnvPlan &p, const Materials &m, const Op &op,
     ac.fill_mode = env.id == 1 ? 3 : (env.id == 2 ? 2 : 0);
     ac.env_seed = mix64(env.seed, k);
     ac.quarantine = (env.id % 2) == 0;
+    // One environment in three places objects at descending addresses.
+    ac.descending = (env.id % 3) == 2;
     ScribbleStack(mix64(env.seed, 0x57ac0000 + k), false);
   } else {
     ac.fill_mode = 1;
@@ -871,6 +873,7 @@ uint64_t RunPlan(const EnvPlan &p, const std::string &repo,
   *abandoned = false;
   Materials m;
   Hasher log;
+  AllocArenaReset();
   // The plan's inputs are produced in the reference environment as well.
   AllocConfig mc;
   mc.perturb = true;
@@ -981,6 +984,36 @@ uint64_t RunPlan(const EnvPlan &p, const std::string &repo,
     Env env;
     env.id = e;  // env 0 = unperturbed history; 1.. perturbed
     env.seed = mix64(p.env_seed, e);
+    // The input geometries are rebuilt inside every environment, so that the
+    // objects the encoders look at (attributes, buffers) also live at that
+    // environment's addresses (output must not depend on where they are).
+    Materials me;
+    if (e != 0) {
+      AllocConfig gc;
+      gc.perturb = true;
+      gc.fill_mode = e == 1 ? 3 : (e == 2 ? 2 : 0);
+      gc.env_seed = mix64(env.seed, 0x6e0);
+      gc.descending = (e % 3) == 2;
+      AllocBegin(gc);
+      bool okg = true;
+      for (const Workload &w : p.geoms) {
+        std::unique_ptr<draco::PointCloud> g = BuildGeometry(w);
+        if (!g) okg = false;
+        me.geoms.push_back(std::move(g));
+      }
+      AllocEnd(false);
+      if (okg) {
+        m.geoms.swap(me.geoms);  // |me| now holds the reference geometries
+      } else {
+        me.geoms.clear();
+      }
+    }
+    struct RestoreGeoms {
+      Materials *m, *me;
+      ~RestoreGeoms() {
+        if (!me->geoms.empty()) m->geoms.swap(me->geoms);
+      }
+    } restore_geoms{&m, &me};
     std::unique_ptr<Objects> objs_holder(new Objects());
     Objects &objs = *objs_holder;
     std::vector<int> touched(16, 0);
@@ -1250,7 +1283,8 @@ int EnvMain(const std::map<std::string, std::string> &a, const std::string &cmd)
     };
     PoolOptions po;
     po.workers = nworkers;
-    po.begin = 0;
+    po.begin = strtoull(get("begin", "0").c_str(), nullptr, 0);
+    po.head = 0;
     po.end = total;
     po.budget_s = atof(get("budget", "0").c_str());
     po.log_dir = log_dir;
